@@ -12,7 +12,28 @@ import (
 // descendant below a capability-setting queue still counts for the dimensions that queue leaves
 // open.  Built adaptively against the real webhook like every other history.
 
-var capDims = []int64{2, 3, 4}
+// the dimension pool of the directed capability histories: cpu, memory, an extended resource, and the names
+// whose unit in api.NewResource is NOT what Quantity.Value() gives or that take their own branch there:
+// ephemeral-storage (stored in MILLI-units), pods (units, also MaxTaskNum), hugepages-* (milli scalar)
+var capDimPool = []int64{1, 2, 3, 4, 6, 7}
+
+// three dimensions of the pool, ascending; ephemeral-storage in every second history
+func (g *gctx) pickCapDims() {
+	r := g.r
+	in := map[int64]bool{}
+	if r.Chance(1, 2) {
+		in[7] = true
+	}
+	for len(in) < 3 {
+		in[vh.Pick(r, capDimPool)] = true
+	}
+	g.capDims = nil
+	for _, d := range capDimPool {
+		if in[d] {
+			g.capDims = append(g.capDims, d)
+		}
+	}
+}
 
 // first positive capability (dimension d) at or below queue n: the model of what
 // findSubtreeMaxCapability sees, computed on the generator's view of the state
@@ -39,7 +60,7 @@ func (g *gctx) randomSubset() []int64 {
 		return nil
 	}
 	out := []int64{}
-	for _, d := range capDims {
+	for _, d := range g.capDims {
 		if r.Chance(1, 2) {
 			out = append(out, d)
 		}
@@ -52,7 +73,7 @@ func (g *gctx) randomSubset() []int64 {
 func (g *gctx) admissibleCaps(st map[int64]qspec, p int64, dims []int64) rl {
 	r := g.r
 	out := rl{}
-	for _, d := range capDims {
+	for _, d := range g.capDims {
 		in := false
 		for _, x := range dims {
 			in = in || x == d
@@ -78,6 +99,7 @@ func (g *gctx) directedMove() history {
 	q0 := baseQ0(r)
 	g.w = newWorld(cfg, q0)
 	g.capOnly = true
+	g.pickCapDims()
 	h := history{cfg: cfg, q0: q0}
 	alive := true
 	do := func(req request) {
@@ -94,7 +116,11 @@ func (g *gctx) directedMove() history {
 	// old location: under root, or under a queue that sets every dimension generously
 	top := int64(1)
 	if r.Chance(2, 3) {
-		do(request{kCreate, qspec{name: 3, parent: int64(r.Intn(2)), cap: rl{{2, 100000}, {3, 100000}, {4, 100000}}}})
+		gen := rl{}
+		for _, d := range g.capDims {
+			gen = append(gen, [2]int64{d, 100000})
+		}
+		do(request{kCreate, qspec{name: 3, parent: int64(r.Intn(2)), cap: gen}})
 		top = 3
 	}
 	// the subtree: a chain of depth 2-4 below its root Q = 4, plus sometimes a side branch
@@ -118,10 +144,10 @@ func (g *gctx) directedMove() history {
 	// the new parent chain: values around the subtree's per-dimension maximum; one critical
 	// dimension decides, the others are unset / at / above
 	st := g.state()
-	critical := vh.Pick(r, capDims)
+	critical := vh.Pick(r, g.capDims)
 	class := r.Intn(3) // 0 below, 1 at, 2 above
 	target := map[int64]int64{}
-	for _, d := range capDims {
+	for _, d := range g.capDims {
 		m := firstPosMax(st, moved, d, 16)
 		if m == 0 {
 			if r.Chance(1, 2) {
@@ -150,7 +176,7 @@ func (g *gctx) directedMove() history {
 	}
 	twoLevels := r.Chance(1, 2)
 	p1, p2 := rl{}, rl{}
-	for _, d := range capDims {
+	for _, d := range g.capDims {
 		t, ok := target[d]
 		if !ok {
 			continue
